@@ -77,6 +77,14 @@ Proof.
 Qed.
 Print Assumptions C01_trinterp_closed.
 
+(* SO(3) case of trinterp / SO3.interp (repaired in /repo by ee14c5b): the result is q2r of the slerp value *)
+Theorem C01_trinterp_so3_closed : forall (q0 q1 : V4 R) (s : R) (sh : bool) (q : V4 R),
+  UnitQ q0 -> UnitQ q1 -> not_antipodal sh q0 q1 -> slerp Rops K01 q0 q1 s sh = Ok q -> SO3 (q2r_m Rops q).
+Proof.
+  intros q0 q1 s sh q U0 U1 NA E. unfold q2r_m. apply SO3_of_UnitQ. apply (C01_slerp_closed q0 q1 s sh q U0 U1 NA E).
+Qed.
+Print Assumptions C01_trinterp_so3_closed.
+
 (* non-vacuity: unit operands that are not antipodal, interior s: the model returns a value (some branch) *)
 Example C01_slerp_nonvacuous :
   UnitQ (1,0,0,0) /\ UnitQ (0,1,0,0) /\ not_antipodal false (1,0,0,0) (0,1,0,0) /\
